@@ -6,6 +6,7 @@ from ..deck import Deck, fmt
 from ..runner import Scn, verdict, sha, Vacuous
 
 ID = 'C02'
+DECORATE = True
 LEVEL = 'model_checking'
 RULE = ('E1 enumeration of surface cards: every mnemonic x parameter alphabet (negative, non-integer '
         'and zero values where admissible; inadmissible vectors are not generated), one-surface deck '
